@@ -17,6 +17,7 @@ import Flowjaxv.Driver.Losses
 import Flowjaxv.Driver.NetInverse
 import Flowjaxv.Driver.Planar
 import Flowjaxv.Driver.BnafLd
+import Flowjaxv.Driver.ElboAd
 /-!
 Model driver: `lake env lean --run Driver.lean < ops.txt`.  One op per line in, one line out
 (`ERR <msg>` when the model rejects the op).
@@ -35,7 +36,13 @@ def dispatch (line : String) : String :=
       | "ctree" => ctree args
       | "tdist" => tdist args
       | "atree" => atree args
+      | "atreeh" => atreeh args
+      | "jnpprim" => jnpprim args
       | "ad" => ad args
+      | "adfam" => adfam args
+      | "adplanar" => adplanar args
+      | "admix" => admix args
+      | "adnet" => adnet args
       | "pytree" => pytree args
       | "jmod" => jmodOp args
       | "rankmask" => rankmask args
@@ -100,6 +107,7 @@ def dispatch (line : String) : String :=
       | "bnaflj" => bnaflj args
       | "actlj" => actlj args
       | "lmme" => lmme args
+      | "stlgrad" => stlgrad args
       | _ => .error s!"unknown op {op}"
     match r with
     | .ok s => s
